@@ -135,6 +135,7 @@ func NewMachine(c *gen.Case, r *rec.Recorder, o Opts) (*am.Machine, *InitJ, erro
 		Id:             "v",
 		Tracers:        []am.Tracer{r},
 		HandlerTimeout: ht,
+		QueueLimit:     QueueLimit,
 	})
 	r.Mach = m
 	if err := m.VerifyStates(index); err != nil {
@@ -192,6 +193,10 @@ func scriptOf(call *gen.Call) *rec.Script {
 	}
 	return sc
 }
+
+// QueueLimit of every machine the sequential driver builds (small, so that
+// handler-issued mutations reach it).
+var QueueLimit uint16 = 4
 
 // CallDeadline bounds a public call; a call that does not return in time is
 // reported as "hang" (the goroutine is abandoned).
